@@ -40,7 +40,8 @@ func HC18_concealment() {
 	w := vh.Weights("w.", crit, 0.125, 4)
 	current := vh.Params(known, []string{"b"}, crit, majority.MajorityHeuristicParams{Weights: w})
 	// the original parameters differ from the current ones (as after an earlier bias): the new criterion must be derived from the current state
-	original := vh.Params(vh.Alternatives("orig.", vh.AltIds[:2], crit), []string{"b"}, crit, majority.MajorityHeuristicParams{Weights: vh.Weights("orig.w.", crit, 0.125, 4)})
+	origCrit := append(append(model.Criteria{}, crit...), model.Criterion{Id: "dropped-earlier", Type: model.Gain})
+	original := vh.Params(vh.Alternatives("orig.", vh.AltIds[:2], origCrit), []string{"b"}, origCrit, majority.MajorityHeuristicParams{Weights: vh.Weights("orig.w.", origCrit, 0.125, 4)})
 	var listener model.BiasListener = &majority.MajorityBiasListener{}
 	strategy := rt.OneOf("strategy", "default", "importanceRatio", "randomUniform", "randomWeighted")
 	scaling := rt.FloatIn("newCriterionScaling", 0.125, 4)
